@@ -60,6 +60,18 @@ Definition lw_step (A : V -> W) (At : W -> V) (omega : T) (b : W) (x : V) : V :=
 Definition kz_sweep (steps : list (V -> V)) (x : V) : V :=
   fold_left (fun x s => s x) steps x.
 
+(* kaczmarz with random=True: `rng = np.random.permutation(range(len(ops)))`; the blocks are
+   visited in the drawn ORDER (a list of operator indices), block i always with ITS OWN
+   rhs[i] and omega[i].  An index outside the list leaves x unchanged (cannot occur). *)
+Definition kz_sweep_order (steps : list (V -> V)) (order : list nat) (x : V) : V :=
+  fold_left (fun x i => nth i steps (fun y => y) x) order x.
+(* one order per outer iteration *)
+Fixpoint kz_run_orders (steps : list (V -> V)) (orders : list (list nat)) (x : V) : list V :=
+  match orders with
+  | [] => []
+  | o :: orders' => let x' := kz_sweep_order steps o x in x' :: kz_run_orders steps orders' x'
+  end.
+
 (* ------------------------------------------------------------------ *)
 (* conjugate_gradient: state after the preamble / after each iteration *)
 Record cgst := { cg_x : V; cg_r : V; cg_p : V; cg_rr : T }.
